@@ -1533,6 +1533,51 @@ func (w *e2World) evJump(rd *e2Round) bool {
 	return w.deliver(sv, ov)
 }
 
+// evRace makes a step timer elapse and a jump-ahead view arrive while the kernel is busy
+// with something else, so that both are ready when it returns to its select and Go picks
+// one at random: the jump-ahead message is built first, a no-op view is handed over (the
+// send completes when the kernel has taken it and starts handling it), and in that window
+// the timer is fired and the jump-ahead view is offered. Whichever the kernel takes first,
+// the other must be dealt with as if it had come later.
+func (w *e2World) evRace(rd *e2Round) bool {
+	ts := w.rt.outstanding(w.inst.n)
+	if len(ts) == 0 || len(w.holds) > 0 {
+		return true
+	}
+	tm := ts[w.rng.IntN(len(ts))]
+	if tm.kind == "proposal" {
+		if !w.gateChoose() {
+			return false
+		}
+	}
+	k := uint32(1 + w.rng.IntN(2))
+	jr := w.round(rd.h, rd.r+k)
+	if jr.version == 0 {
+		w.mutVotes(jr, w.rng.IntN(2) == 0, 1+w.rng.IntN(w.cfg.nVals))
+	}
+	jv, _ := w.buildVRV(jr, "jump-target")
+	var sv tmeil.StateMachineRoundView
+	sv.JumpAheadRoundView = &jv
+	ov := &e2View{ID: len(w.views) + 1, Kind: "jump", H: rd.h, R: rd.r, JumpOnly: true, PHRound: map[string]e2HR{}}
+	w.views = append(w.views, ov)
+	ov.JumpRound = jr.r
+	if !w.noops(1) {
+		return false
+	}
+	if cur := w.inst.cur; cur.H != rd.h || cur.R != rd.r || tm.h != rd.h || tm.r != rd.r {
+		// the machine had moved on before the harness knew (an entrance was waiting to be
+		// serviced): the prepared message is for a round it has left; drop the attempt
+		w.count("race.abandoned-machine-had-moved-on")
+		return true
+	}
+	if !w.rt.fire(tm.id) {
+		w.count("race.abandoned-timer-no-longer-outstanding")
+		return true
+	}
+	w.count("race.timer-fired-while-kernel-busy." + tm.kind)
+	return w.deliver(sv, ov)
+}
+
 // evOtherRound delivers a view for a round the machine is not in, with content
 // that would matter if it were taken for the current round.
 func (w *e2World) evOtherRound(rd *e2Round) bool {
@@ -1795,6 +1840,9 @@ func (w *e2World) step() bool {
 		jw = 40
 	}
 	cs = append(cs, choice{"jump", jw}, choice{"other", 3}, choice{"propose", 6})
+	if len(timers) > 0 && len(w.holds) == 0 {
+		cs = append(cs, choice{"race", 4})
+	}
 	if w.cfg.blockData {
 		cs = append(cs, choice{"blockdata", 5})
 	}
@@ -1821,6 +1869,8 @@ func (w *e2World) step() bool {
 		ok = w.evFinResp()
 	case "hcommitted":
 		ok = w.evHeightCommitted(rd)
+	case "race":
+		ok = w.evRace(rd)
 	case "jump":
 		ok = w.evJump(rd)
 	case "other":
